@@ -12,8 +12,8 @@ CONSTANTS SeedIds, Focus, MaxDepth, EditVals, EditNodes, EmitOn
 Names5  == <<"a", "b", "a", "<none>", "c">>
 Consts5 == <<FALSE, TRUE, TRUE, TRUE, FALSE>>
 
-VARIABLES st, last, hist
-vars == <<st, last, hist>>
+VARIABLES st, last, hist, depth
+vars == <<st, last, hist, depth>>
 
 C(op) == [NoCall EXCEPT !.op = op]
 In(g, v)  == [C("IOAppend") EXCEPT !.k = "in", !.g = g, !.v = v]
@@ -74,6 +74,7 @@ Init ==
      /\ st = SApplyAll(Empty, Seed(id))
      /\ hist = SOutcomes(Empty, Seed(id))
      /\ last = [c |-> NoCall, out |-> "init"]
+     /\ depth = 1
 
 V == 1..Len(st.s.vProd)
 N == 1..Len(st.s.nIn)
@@ -112,16 +113,19 @@ EditCalls ==
 
 Calls == {c \in EditCalls : c.op \in Focus}
 
+\* The number of edits is part of the state (and of the VIEW): with several workers TLC's own level of a state
+\* depends on which path finds it first, a bound on the level alone would make the explored set vary from run to run.
 Next ==
-  /\ TLCGet("level") < MaxDepth      \* no successors beyond the bound (TLC evaluates invariants on them otherwise)
+  /\ depth < MaxDepth
+  /\ depth' = depth + 1
   /\ \E c \in Calls :
      LET r == SApply(st, c) IN
      /\ st' = r.s
      /\ last' = [c |-> c, out |-> r.out]
      /\ hist' = Append(hist, last')
 
-Bound == TLCGet("level") <= MaxDepth
-View == st
+Bound == depth <= MaxDepth
+View == <<st, depth>>
 
 Compact(c) == <<c.op, c.g, c.n, c.v, c.w, c.i, c.j, c.vs, c.ws, c.k, c.flag, c.name>>
 
